@@ -13,6 +13,7 @@ import (
 	"os"
 
 	"verif/engine/core"
+	"verif/engine/explore"
 	"verif/engine/par"
 	"verif/props"
 )
@@ -23,6 +24,7 @@ func main() {
 	}
 	switch os.Args[1] {
 	case "child":
+		explore.InitRaceLog()
 		par.Serve(props.HandleTask)
 	case "check":
 		fs := flag.NewFlagSet("check", flag.ExitOnError)
